@@ -6,7 +6,7 @@ from engine import cc, cfg, lib
 from engine.facts import erase, short_loc, CACHE
 from engine.lib import A, qe
 from engine.table import Interp, Unknown, product
-from rules.common import Oracle, ITER, loop_of, iter_env, MAXU
+from rules.common import Oracle, ITER, loop_of, iter_env, MAXU, LoopModel, iter_calls
 from rules import C08, C05
 
 
@@ -34,9 +34,11 @@ def c02a(ctx, tu):
                 raise Unknown("candidate / lowest-cost variables not recognised")
             # the loop ranges over the list parameter from its head
             rng = [e for b, e in fn.events() if e["e"] == "decl" and e.get("name", "").startswith("__range")]
-            if not rng or rng[0].get("init", [None])[:2] != ["param", 0]:
+            begins = [e for b, e in fn.events() if e["e"] == "call" and qe(e) == "trompeloeil::list::begin"]
+            if not ((rng and rng[0].get("init", [None])[:2] == ["param", 0]) or
+                    (begins and all(lib.strip_casts(e.get("recv") or [None])[:2] == ["param", 0] for e in begins))):
                 raise Unknown("loop does not range over the list parameter")
-            body = fn.blocks[l["head"]]["succ"][0]
+            lm = LoopModel(fn, l)
             bad = None
             rows = []
             CUR = ("ptr", ("elem", "cur"))
@@ -44,14 +46,10 @@ def c02a(ctx, tu):
             for v in product({"m": [True, False], "c": [0, 1, 2, MAXU], "have": [False, True], "lowest": [1, 2, MAXU]}):
                 if not v["have"] and v["lowest"] != MAXU:
                     continue  # no candidate yet  =>  lowest still at its initial all-ones value
-                o = Oracle(calls=dict(ITER, **{"trompeloeil::call_matcher_base::matches": v["m"],
-                                               "trompeloeil::call_matcher_base::sequence_cost": v["c"]}),
-                           params={1: ("obj", "params")})
-                it = Interp(fn, o)
-                it.env.update(iter_env(fn))
-                it.env[cand] = OLD if v["have"] else None
-                it.env[low] = v["lowest"]
-                res = it.run(start=body, stop_blocks={l["head"]})
+                o = Oracle(calls=iter_calls("elem", {"trompeloeil::call_matcher_base::matches": v["m"],
+                                                     "trompeloeil::call_matcher_base::sequence_cost": v["c"]}),
+                           params={0: ("obj", "list"), 1: ("obj", "params")}).descend_into(tu)
+                res, it = lm.step(o, {cand: OLD if v["have"] else None, low: v["lowest"]}, at="elem")
                 after = (it.env.get(cand), it.env.get(low))
                 # acceptable decisions
                 if not v["m"]:
@@ -74,9 +72,19 @@ def c02a(ctx, tu):
                         ("candidate with cost %s" % ("inf" if v["lowest"] == MAXU else v["lowest"])) if v["have"] else "no candidate yet",
                         " or ".join(describe(a) for a in acc), describe(got)))
             # result after the loop is the candidate
-            rets = cfg.events_in_blocks(fn, cfg.reach(fn, l["after"]) - l["body"], lambda e: e["e"] == "return")
-            if not rets or any(e.get("x", [None, None])[:2] != ["var", cand] for _, _, e in rets):
-                bad = bad or "after the loop the function must return the candidate"
+            for have in (False, True):
+                o = Oracle(calls=iter_calls("end", {"trompeloeil::call_matcher_base::matches": True,
+                                                    "trompeloeil::call_matcher_base::sequence_cost": 1}),
+                           params={0: ("obj", "list"), 1: ("obj", "params")}).descend_into(tu)
+                res, it = lm.step(o, {cand: OLD if have else None, low: 2 if have else MAXU}, at="end")
+                if res != ("return", OLD if have else None):
+                    bad = bad or "after the loop the function must return the candidate"
+            # the search starts without a candidate
+            o = Oracle(calls=iter_calls("elem"), params={0: ("obj", "list"), 1: ("obj", "params")}, any_member=True).descend_into(tu)
+            it0 = Interp(fn, o)
+            r0 = it0.run(stop_blocks={lm.entry})
+            if r0 != ("stop", lm.entry) or it0.env.get(cand, 1) is not None or it0.env.get(low) != MAXU:
+                bad = bad or "the search must start with no candidate and an all-ones lowest cost"
             ctx.ob("C02.a", A["find"], bad is None, pattern=fn.pat, unit=tu.name, inst=fn.q,
                    detail="" if bad is None else "selection step table: " + bad,
                    witness=None if bad is None else {"rows": rows[:12]})
